@@ -34,7 +34,7 @@ NOT_APPLICABLE = {}
 
 CHECKS = {
     "C08": {
-        "text": "KeyKeeper.tla models loop_poll one host call / file-system call per action with Crash enabled in every control state (volatile state lost, disk and host kept); TLC checks LatchedIsRecoverable, NoCorruptFinalName, AttestOnlyAfterStoreAndReadBack, RestartUsesLocal, RenameOnlyComplete over 4 scenarios x <=2 crashes x <=2 host faults (2.1M states) and liveness under fairness. The real key keeper runs as a child process on a current-thread runtime under strace; for every scenario x host-fault plan (fresh latch, restart with key, rotation named/unnamed, unreadable local key; status/acquire/attest faults incl. 'host latched but reply lost') the child is killed before each system call on the key directory, a key file or the host socket, restarted on the same directory and host, and must authenticate with the latched key without a new key request; the scripted host (separate process) verifies MACs with Python hmac; both strace logs of every case plus the real directory and latch at exit are validated by TLC against KeyKeeperTraceFs.tla.",
+        "text": "KeyKeeper.tla models loop_poll one host call / file-system call per action with Crash enabled in every control state (volatile state lost, disk and host kept); TLC checks LatchedIsRecoverable, NoCorruptFinalName, AttestOnlyAfterStoreAndReadBack, RestartUsesLocal, RenameOnlyComplete over 4 scenarios x <=2 crashes x <=3 host/storage faults (every step of the store and the read-back may fail once and heal; 0.7M states) and liveness under fairness; a design that carries an acquired key to the next poll and attests it without storing it again must break the latch clause. The real key keeper runs as a child process on a current-thread runtime under strace; for every scenario x host-fault plan (fresh latch, restart with key, rotation named/unnamed, unreadable local key; status/acquire/attest faults incl. 'host latched but reply lost'; transient storage faults: one create/write/rename/read-back call fails with an injected errno, the next poll finds the disk healthy) the child is killed before each system call on the key directory, a key file or the host socket, restarted on the same directory and host, and must authenticate with the latched key without a new key request; the scripted host (separate process) verifies MACs with Python hmac; both strace logs of every case plus the real directory and latch at exit are validated by TLC against KeyKeeperTraceFs.tla.",
         "note": "Crash = SIGKILL of the process (not power loss); kill points come from a baseline run per case (timer wake-ups shift a few); quick samples 1 in 6 of the tmp-file writes, thorough kills before every syscall.",
         "technique": "TLA+ spec with crash action + TLC model checking; exhaustive kill-point enumeration on the real process (strace inject); impl->spec trace validation of syscall logs",
         "design_ref": "DESIGN.md §3 KeyKeeper.tla (C08)",
